@@ -252,10 +252,12 @@ type scenario struct {
 	Restarts int      `json:"restarts"`
 	// Conflicts: budget of foreign writes landing just before a write of a pass
 	Conflicts int `json:"conflicts"`
+	// LongLived: all passes of a history run in one operator process (states rebuilt by path replay)
+	LongLived bool `json:"longLived"`
 }
 
 func (sc scenario) name() string {
-	return fmt.Sprintf("%s phases=%d delegated=%03b statuses=%d pauses=%d archive=%v delete=%v restarts=%d", sc.Kind, sc.N, sc.Mask, len(sc.Classes), sc.Pauses, sc.Archive, sc.Delete, sc.Restarts)
+	return fmt.Sprintf("%s phases=%d delegated=%03b statuses=%d pauses=%d archive=%v delete=%v restarts=%d conflicts=%d longLived=%v", sc.Kind, sc.N, sc.Mask, len(sc.Classes), sc.Pauses, sc.Archive, sc.Delete, sc.Restarts, sc.Conflicts, sc.LongLived)
 }
 
 func userEvents(w *world.World, sc scenario, os string) []world.Event {
@@ -284,9 +286,13 @@ func userEvents(w *world.World, sc scenario, os string) []world.Event {
 
 func system(sc scenario) *world.System {
 	return &world.System{
-		Name: sc.name(),
+		Name:       sc.name(),
+		Persistent: sc.LongLived,
 		Init: func() *world.World {
 			w := osw.NewWorld()
+			if sc.LongLived {
+				w.LongLived()
+			}
 			if sc.Kind == "single" {
 				w.MustCreate(world.NewObjectSet("r1", osw.PhaseSpecs(osw.B1(sc.N, sc.Mask), 1), world.StdProbes()))
 			} else if sc.Kind == "takeover" {
@@ -333,6 +339,8 @@ func scenarios(quick bool) []scenario {
 		// archival interrupted by a crash between any two calls (e.g. finalizer removed, status not yet written)
 		{Kind: "single", N: 2, Mask: 0, Classes: []string{"ready"}, Archive: true, Restarts: 1, Conflicts: 1},
 		{Kind: "takeover", N: 1, Classes: []string{"ready"}, Archive: true, Restarts: 1, Conflicts: 1},
+		{Kind: "chain", N: 1, Classes: []string{"ready"}, Archive: true, LongLived: true},
+		{Kind: "single", N: 2, Mask: 0b10, Classes: []string{"ready"}, Pauses: 1, Delete: true, LongLived: true},
 	}
 	if !quick {
 		out = append(out,
@@ -348,7 +356,7 @@ func scenarios(quick bool) []scenario {
 
 func run(o checks.Opts) *report.Report {
 	rep := report.New("C06", "bfs")
-	rep.Rule = "explicit-state BFS: reconcile(ObjectSets, ObjectSetPhases), workload status changes, user pause/unpause/archive/delete, garbage collector, operator crash before request i, a foreign write landing before write i of a pass (update conflict); systems: single ObjectSet (2-3 phases, local/delegated) a two-revision handover chain r1{a,b}->r2{a,c}, and a complete takeover r1{a}->r2{a,c} (r1's archival teardown finishes in its first pass) with crashes; monitor on every status write of the ObjectSet controller"
+	rep.Rule = "explicit-state BFS: reconcile(ObjectSets, ObjectSetPhases), workload status changes, user pause/unpause/archive/delete, garbage collector, operator crash before request i, a foreign write landing before write i of a pass (update conflict); two systems run all passes of a history in one long-lived operator process; systems: single ObjectSet (2-3 phases, local/delegated) a two-revision handover chain r1{a,b}->r2{a,c}, and a complete takeover r1{a}->r2{a,c} (r1's archival teardown finishes in its first pass) with crashes; monitor on every status write of the ObjectSet controller"
 	scs := scenarios(o.Quick())
 	rep.Bounds["systems"] = len(scs)
 	for i, sc := range scs {
@@ -384,9 +392,9 @@ func init() {
 		},
 		Subs: []*checks.Sub{{Name: "bfs", Shards: func(t string) int {
 			if t == "thorough" {
-				return 12
+				return 14
 			}
-			return 7
+			return 9
 		}, Run: run, Replay: replay, Parallel: true}},
 	})
 }
